@@ -497,9 +497,13 @@ class InterpolatedPredictionStrategy(DefaultPredictionStrategy):
         fant_wmat = self.prepare_dense_wmat(fant_fant_covar)
 
         fant_likelihood = self.likelihood.get_fantasy_likelihood(**kwargs)
-        # kwargs carry the noise of the fantasy observations for a fixed-noise likelihood (whose stored noise now covers train + fantasy points)
+        # kwargs carry the noise of the fantasy observations for a fixed-noise likelihood (whose stored noise now covers
+        # train + fantasy points); other noise models do not store it and keep being asked without it
+        from ..likelihoods.noise_models import FixedGaussianNoise
+
+        noise_kwargs = kwargs if isinstance(fant_likelihood.noise_covar, FixedGaussianNoise) else {}
         fant_noise = fant_likelihood.noise_covar(
-            fant_wmat.transpose(-1, -2) if len(fant_wmat.shape) > 2 else fant_wmat, **kwargs
+            fant_wmat.transpose(-1, -2) if len(fant_wmat.shape) > 2 else fant_wmat, **noise_kwargs
         )
         fant_root_vector = fant_noise.sqrt_inv_matmul(fant_wmat.transpose(-1, -2)).transpose(-1, -2)
 
